@@ -22,10 +22,12 @@ package contractcourt
 //@   bounds-safe
 //@   loop * havoc
 //@   loop 0 step haveChainActions == (prev(haveChainActions) || ret(shouldGoOnChain, 0))
-//@   loop 1 step haveChainActions == (prev(haveChainActions) || (retn(isPreimageAvailable, 0) && ret(shouldGoOnChain, 1)))
+//@   // a received HTLC counts only if it has an output on the commitment (dust cannot be claimed on chain: finding F39), its preimage is known
+//@   // and it is about to expire
+//@   loop 1 step haveChainActions == (prev(haveChainActions) || (htlc.OutputIndex >= 0 && retn(isPreimageAvailable, 0) && ret(shouldGoOnChain, 1)))
 //@   site call shouldGoOnChain nth 0: assert arg(broadcastDelta) == c.cfg.OutgoingBroadcastDelta && arg(currentHeight) == height && arg(htlc) == htlc
 //@   site call shouldGoOnChain nth 1: assert arg(broadcastDelta) == c.cfg.IncomingBroadcastDelta && arg(currentHeight) == height && arg(htlc) == htlc &&
-//@        retn(isPreimageAvailable, 0) && retn(isPreimageAvailable, 1) == nil
+//@        retn(isPreimageAvailable, 0) && retn(isPreimageAvailable, 1) == nil && htlc.OutputIndex >= 0
 //@   site call shouldGoOnChain nth 2: assert arg(broadcastDelta) == c.cfg.OutgoingBroadcastDelta && arg(currentHeight) == height && arg(htlc) == htlc
 //@   site call isPreimageAvailable: assert arg(hash) == htlc.RHash
 //@   site mapupdate actionMap: assert
